@@ -15,6 +15,7 @@ Not proved here: `Unpack` as a whole (its recursion threads the cache-filling he
 import Ajson.Proofs.LazyParsed
 import Ajson.Proofs.Lazy2
 import Ajson.Proofs.TreeFacts
+import Ajson.Proofs.ParsedValue
 import Ajson.Model.Read
 
 namespace Ajson.Props.C02
@@ -103,6 +104,89 @@ theorem C02_object (data : Bytes) (v : STree) (hp : parseRef data = .ok v) :
   · subst hk
     obtain ⟨_, hlk, hkey⟩ := RepMembers.get pre key x post (id + 1) _ hr'.2.2 hns
     exact ⟨by simp [Heap.getKey, typeOf, hty, STree.ntype, hlk], hkey⟩
+
+/-! ### the value a parsed tree denotes (`absVal`, Proofs/Refine), position by position -/
+
+/-- **scalars denote what their literal denotes**: at every position of every accepted text a number node denotes the correctly
+rounded float64 of its literal (and nothing when the literal is out of range), a string node its unquoted literal, `true` / `false` /
+`null` themselves -/
+theorem C02_value_of_a_scalar (data : Bytes) (v : STree) (hp : parseRef data = .ok v) (F : Nat) :
+    ∃ H, unmarshal data = .ok (H, 0) ∧
+      (∀ a b lit id, SubAt v 0 (.num a b lit) id → ∀ bits, absVal (F + 1) H id = some (.num bits) ↔ parseFloat64 lit = .ok bits) ∧
+      (∀ a b raw id, SubAt v 0 (.str a b raw) id → ∀ s, absVal (F + 1) H id = some (.str s) ↔ unquoteBytes raw 34 = some s) ∧
+      (∀ a b x id, SubAt v 0 (.bool a b x) id → absVal (F + 1) H id = some (.bool x)) ∧
+      (∀ a b id, SubAt v 0 (.null a b) id → absVal (F + 1) H id = some .null) := by
+  obtain ⟨H, hu, hr, hw, hd⟩ := unmarshal_tree data v hp
+  refine ⟨H, hu, ?_, ?_, ?_, ?_⟩
+  · intro a b lit id hs bits
+    obtain ⟨hr', hw'⟩ := hs.rep hr hw
+    have hty : H.typeOf id = .numeric := (hr'.node hw').1
+    rw [((absVal_scalar_is_getter F H id).1 hty) bits, hr'.getNumeric hw' hd]
+    cases parseFloat64 lit with
+    | ok x => simp
+    | error e => simp
+  · intro a b raw id hs s
+    obtain ⟨hr', hw'⟩ := hs.rep hr hw
+    have hty : H.typeOf id = .string := (hr'.node hw').1
+    obtain ⟨s0, h1, h2⟩ := hr'.getString hw' hd
+    rw [((absVal_scalar_is_getter F H id).2.1 hty) s, h2, h1]
+    simp
+  · intro a b x id hs
+    obtain ⟨hr', hw'⟩ := hs.rep hr hw
+    have hty : H.typeOf id = .bool := (hr'.node hw').1
+    exact (((absVal_scalar_is_getter F H id).2.2.1 hty) x).mpr (hr'.getBool hw' hd)
+  · intro a b id hs
+    obtain ⟨hr', hw'⟩ := hs.rep hr hw
+    have hty : H.typeOf id = .null := (hr'.node hw').1
+    exact ((absVal_scalar_is_getter F H id).2.2.2 hty).1
+
+/-- **an array denotes the list of what its elements denote, in source order**: the nodes `absVal` visits are exactly the nodes of
+the elements (`elemIds`: consecutive positions in document order), so the value of the array is the list of the values at those
+positions — each of which is again a position of the text, to which these theorems apply -/
+theorem C02_value_of_an_array (data : Bytes) (v : STree) (hp : parseRef data = .ok v) (F : Nat) :
+    ∃ H, unmarshal data = .ok (H, 0) ∧ ∀ a b xs id, SubAt v 0 (.arr a b xs) id →
+      absVal (F + 1) H id = ((elemIds (id + 1) xs).mapM (fun c => absVal F H c)).map JVal.arr := by
+  obtain ⟨H, hu, hr, hw, hd⟩ := unmarshal_tree data v hp
+  refine ⟨H, hu, fun a b xs id hs => ?_⟩
+  obtain ⟨hr', hw'⟩ := hs.rep hr hw
+  have hty : H.typeOf id = .array := (hr'.node hw').1
+  conv => lhs; unfold absVal
+  rw [hty]
+  simp only []
+  rw [arrayIds_of_rep hr']
+
+/-- **an object denotes its members by key, the last duplicate winning**: the value of an object node lists, for the entries of its
+children map, the key together with what the entry's node denotes; the keys of that map are pairwise different, they are exactly the
+member names of the text, and the entry under a name is the node of the LAST member of that name -/
+theorem C02_value_of_an_object (data : Bytes) (v : STree) (hp : parseRef data = .ok v) (F : Nat) :
+    ∃ H, unmarshal data = .ok (H, 0) ∧ ∀ a b kvs id, SubAt v 0 (.obj a b kvs) id →
+      absVal (F + 1) H id = ((H.childMap id).mapM (fun p => (absVal F H p.2).map (fun w => (p.1, w)))).map JVal.obj ∧
+      (H.childMap id).keys.Nodup ∧
+      (∀ key, key ∈ (H.childMap id).keys ↔ kvs.any (fun p => p.1 == key) = true) ∧
+      (∀ pre key x post, kvs = pre ++ (key, x) :: post → post.any (fun p => p.1 == key) = false →
+        (key, id + 1 + nodesM pre) ∈ H.childMap id) := by
+  obtain ⟨H, hu, hs0⟩ := Proofs.struct_unmarshal data v hp
+  obtain ⟨H', hu', hr, hw, hd⟩ := unmarshal_tree data v hp
+  have hH : H' = H := by rw [hu] at hu'; simp only [Except.ok.injEq, Prod.mk.injEq] at hu'; exact hu'.1.symm
+  subst hH
+  refine ⟨H', hu, fun a b kvs id hs => ?_⟩
+  obtain ⟨hr', hw'⟩ := hs.rep hr hw
+  have hty : H'.typeOf id = .object := (hr'.node hw').1
+  have hid : id < H'.size := by
+    by_cases hlt : id < H'.size
+    · exact hlt
+    · have := get_default H' id (Nat.le_of_not_lt hlt)
+      unfold Heap.typeOf at hty
+      rw [this] at hty
+      cases hty
+  simp only [Rep] at hr'
+  refine ⟨?_, (hs0 id hid).nodup, fun key => ?_, fun pre key x post hk hns => ?_⟩
+  · conv => lhs; unfold absVal
+    rw [hty]
+  · rw [← Proofs.lookup_isSome_iff_keys, hr'.2.1 key]
+  · subst hk
+    obtain ⟨_, hlk, _⟩ := RepMembers.get pre key x post (id + 1) _ hr'.2.2 hns
+    exact Proofs.mem_of_lookup hlk
 
 /-- non-vacuity (kernel evaluation): a text with a duplicate key, an escape and a nested array -/
 example : (match parseRef "{\"a\":1,\"b\":[true,\"x\\n\"],\"a\":2}".toUTF8.toList with
